@@ -21,7 +21,8 @@ LEVEL = "exploration"
 TRACE = "Trace_StepScenarios"
 REQUIRE_CLAUSES = ["noerr", "step_one_breakpoint", "step_localised", "step_localised_coord", "step_means",
                    "flat_one_segment_per_arm"]
-MIN_GAP = 100000                      # by_arm(min_gap_size=1e5)
+REQUIRE_ACTIONS = ["MC_StepScenarios.Realise"]
+MIN_GAP = 100000                    # by_arm(min_gap_size=1e5)
 COLS = ["chromosome", "start", "end", "gene", "log2", "depth", "weight"]
 CHANGED = {"haar": [-1000, 585, 1000], "hmm-germline": [-1000, 585]}
 SCN_FIELDS = ["method", "kind", "lv", "dir", "nchrom", "szc", "sdc", "wc", "sp"]
